@@ -74,7 +74,7 @@ func zzLoadTree(root string) ([]directives.File, error) {
 	for step := 0; len(zzPending) > 0; step++ {
 		i := 0
 		if len(zzPending) > 1 {
-			i = v.Choice("next"+string(rune('a'+step)), len(zzPending))
+			i = v.Choice("schedNext"+string(rune('a'+step)), len(zzPending))
 		}
 		f := zzPending[i]
 		zzPending = append(append([]func() error{}, zzPending[:i]...), zzPending[i+1:]...)
@@ -84,6 +84,9 @@ func zzLoadTree(root string) ([]directives.File, error) {
 	}
 	return zzArrived, first
 }
+
+// ZZLoadTree exposes zzLoadTree to the harnesses of other packages.
+func ZZLoadTree(root string) ([]directives.File, error) { return zzLoadTree(root) }
 
 // VerifIncludeTree: C05/C14 for the include loader. The same directives laid out
 // as one file or as a tree of included files (sub-directories, paths relative to
